@@ -49,9 +49,18 @@ CLAIMED = {
   "One inductive step of KeepNLatestDeletionPolicy (Commit, Cleanup/cleanupSnapshots/cleanupSegments) from an arbitrary policy state satisfying the invariant DI, with every directory Remove free to fail: at every single Remove no snapshot among the N newest and no segment file of a snapshot still on disk is removed; afterwards the N newest commits are retained and loadable, failed removals stay scheduled, and a fault-free second clean-up leaves exactly the files of retained snapshots. Handle release exactly-once after the last user is decided in C04/C06.",
   "Bounds: N in 1..3, <= 3 retained + <= 2 (3) deletable snapshots over segment ids {1,2}, map iteration order explored for maps of <= 2 entries. Outside: the directory lock and flock-guarded removal (kernel), Close stopping the loops, the pid-file handling of a refused second writer, merged-but-skipped segment files that are never cleaned (the code's own FIXME).",
   "DESIGN.md section 5 C11, appendix C.5"),
+ "C03": (
+  "Symbolic check of recovery selection over the real OpenReader and Writer.loadSnapshots (with loadSnapshot, the snapshot decoder, loadSegment, replaceRoot and KeepNLatestDeletionPolicy.Commit): for every crash image of up to three snapshot files, each intact / truncated at any length / damaged in its trailer / naming a missing segment file / absent, opening never faults, fails only if snapshots exist and none loads, exposes exactly the newest loadable snapshot, continues epochs above it, tells the deletion policy about exactly the loadable snapshots oldest first, releases everything else it opened, and the recovered writer accepts a further batch (C01 step). Decoder totality on arbitrary bytes is C12; exactness of rewritten files (a once-torn epoch rewritten under its old name) is C13.",
+  "Bounds: <= 3 snapshot files, one single-document segment each. Outside: which torn images a real crash can leave (prefix-consistency as an end-to-end statement over real file-system crash images), CRC collisions (CRC-32 replaced by a rolling checksum), OpenWriter's goroutine start-up and next-segment-id computation, repeated crash/recover cycles beyond 'the recovered state satisfies the C01 pre-state invariant'.",
+  "DESIGN.md section 5 C03"),
+ "C14": (
+  "Symbolic fault enumeration over the real persistSnapshotDirect / prepareIntroducePersist / loadSegment / introducePersist / Snapshot.WriteTo with a model directory in which every Persist and Load may fail (symbolic choice per call): success implies segments persisted before the snapshot, commit only after the snapshot item is complete, in-memory segments swapped for loaded copies; failure implies a non-nil error, nothing committed, no snapshot item, no leaked handle, readers unaffected; a fault-free retry then succeeds and covers everything. loadSegment failure paths release their handle. Partial files on the real file system are C13; deletion-policy retry is C11.",
+  "The introducer goroutine is modelled as running introducePersist to completion at the moment the persister hands over the loaded segments (one legal schedule). Outside tier 1: persisterLoop's error branch (waiting safe Batch calls receive the error, AsyncError fires, later acknowledgement covers earlier batches), the merger's error handling around Writer.merge, hangs (need goroutine scheduling). Model-only: a failing Persist/Load cannot be provoked on the real directory natively.",
+  "DESIGN.md section 5 C14"),
 }
 
 NA = {
+ "C02": "the acknowledgement (closing the persisted channel / calling the persisted-callback) happens in persisterLoop, which needs goroutine scheduling that the single-threaded symbolic executor does not have; the ordering leg that tier 1 can decide (segments persisted before the snapshot, commit only after the snapshot item is complete, failure commits nothing) is decided under C14, exact+flushed files under C13, nothing needed removed under C11, recovery picks the newest loadable snapshot under C03 (DESIGN.md section 5 C02, section 7)",
  "C15": "data-race freedom needs a memory-model encoding of preemptive goroutine schedules; the symbolic executor has one logical thread and no happens-before relation, so neither races nor their absence can be decided by this technique (DESIGN.md section 7)",
 }
 
